@@ -1,8 +1,80 @@
-(* C14 — placeholder while the correspondence is brought up; replaced by the real theorems. *)
-From Coq Require Import ZArith List.
-Require Import CCP.Model.Range.
+(* C14 — Integer range strings expand to the denoted set and compress back canonically.
+   Statements are about Model/Range.v, the executable model of CiscoRange(text, result_type=int)
+   (constructor + parse_integers on the actual string, accessors, append, remove), which the correspondence
+   stream ties to /repo after the constructor and after every call.
+   Vocabulary (Proofs/RangeProofs.v):
+     part            one comma-separated item: PSingle ws n ws' | PRange ws a ws' ws'' b ws''' (ws* = blanks)
+     part_ok         every ws is a list of white-space characters (str.isspace)
+     render_text ps  the parts rendered in decimal with their blanks and joined by ","
+     part_lo/part_hi the bounds of the closed interval a part denotes
+     runs l          the maximal segments x, x+1, x+2, ... of l as (first, last)
+     render_run      "a" | "a,b" | "a-b" for a run of length 1 | 2 | >= 3
+     sep rs          consecutive runs (a,b), (c,d) satisfy b + 1 < c
+     step st op      one call (len / iter / as_list / as_set / as_compressed_str / in / append / remove) *)
+From Coq Require Import NArith ZArith List Sorting.Sorted.
+Require Import CCP.Lib.PyStr CCP.Lib.Res CCP.Model.Range CCP.Proofs.RangeProofs.
 Import ListNotations.
 Open Scope Z_scope.
-Theorem C14_placeholder : runs [1;2;3;7] = [(1,3);(7,7)].
-Proof. reflexivity. Qed.
-Print Assumptions C14_placeholder.
+
+(* any order, overlaps, duplicates, embedded blanks, numbers without bound *)
+Theorem C14_expand_spec : forall ps, ps <> [] -> Forall part_ok ps ->
+  exists l, ctor (render_text ps) = Ok l /\ StronglySorted Z.lt l /\
+            forall x, In x l <-> exists p, In p ps /\ part_lo p <= x <= part_hi p.
+Proof. exact expand_spec. Qed.
+Print Assumptions C14_expand_spec.
+
+Theorem C14_expand_empty : ctor [] = Ok [].
+Proof. exact ctor_empty. Qed.
+Print Assumptions C14_expand_empty.
+
+(* in every state reachable from any text by any calls the data is ascending and duplicate-free, and
+   iteration, as_list, (sorted) as_set return exactly the data, len its length *)
+Theorem C14_ordered_views_ascending : forall text st0 ops, ctor text = Ok st0 ->
+  let st := final_state st0 ops in
+  StronglySorted Z.lt st /\ snd (step st OIter) = VList st /\ snd (step st OList) = VList st /\
+  snd (step st OSet) = VList st /\ snd (step st OLen) = VInt (Z.of_nat (length st)).
+Proof. exact ordered_views. Qed.
+Print Assumptions C14_ordered_views_ascending.
+
+Theorem C14_contains_spec : forall v st, snd (step st (OContains v)) = VBool true <-> In v st.
+Proof. exact contains_spec. Qed.
+Print Assumptions C14_contains_spec.
+
+(* canonical form: ascending maximal runs, a-b iff the run has three or more values, a,b for two *)
+Theorem C14_compress_canonical : forall st, StronglySorted Z.lt st ->
+  snd (as_compressed_str st) = join [comma] (map render_run (runs st)) /\
+  flat_map (fun r => zrange (fst r) (snd r)) (runs st) = st /\
+  Forall (fun r => fst r <= snd r) (runs st) /\ sep (runs st).
+Proof.
+  intros st S. split; [apply (compress_canonical_str st S)|].
+  split; [apply runs_decode|]. split; [apply runs_wf|apply runs_sep; exact S].
+Qed.
+Print Assumptions C14_compress_canonical.
+
+Theorem C14_compress_expand : forall st, StronglySorted Z.lt st -> Forall (fun x => 0 <= x) st ->
+  ctor (snd (as_compressed_str st)) = Ok st.
+Proof. exact compress_expand. Qed.
+Print Assumptions C14_compress_expand.
+
+Theorem C14_append_spec : forall v st, StronglySorted Z.lt st ->
+  (In v st -> append v st = None) /\
+  (~ In v st -> exists st', append v st = Some st' /\ StronglySorted Z.lt st' /\ forall x, In x st' <-> x = v \/ In x st).
+Proof. exact append_spec. Qed.
+Print Assumptions C14_append_spec.
+
+Theorem C14_remove_spec : forall v st, StronglySorted Z.lt st ->
+  (~ In v st -> remove v st = None) /\
+  (In v st -> exists st', remove v st = Some st' /\ StronglySorted Z.lt st' /\ forall x, In x st' <-> In x st /\ x <> v).
+Proof. exact remove_spec. Qed.
+Print Assumptions C14_remove_spec.
+
+(* reading never changes a range: the final state AND every intermediate state of any reader sequence *)
+Theorem C14_readers_pure : forall ops st, Forall (fun o => is_reader o = true) ops ->
+  final_state st ops = st /\ Forall (fun p => fst p = st) (run_ops st ops).
+Proof. intros ops st H. split; [apply readers_pure; exact H|apply readers_trace; exact H]. Qed.
+Print Assumptions C14_readers_pure.
+
+(* the encoding used to transport observed lists in the correspondence cannot hide a difference *)
+Theorem C14_runs_injective : forall l1 l2, runs l1 = runs l2 -> l1 = l2.
+Proof. exact runs_injective. Qed.
+Print Assumptions C14_runs_injective.
